@@ -5,6 +5,7 @@ import (
 	"sort"
 	"sync"
 	"time"
+	"unsafe"
 )
 
 // Permutation encodings (low 3 bits of a perm-stream value; the rest is the
@@ -443,3 +444,164 @@ func permSeamOn() bool { return permOn }
 
 //go:norace
 func abortUnmodelled(kind string) { abort(kind) }
+
+// ---------------------------------------------------------------------------
+// Map ranges as iterators. Go leaves three things open when a map is ranged:
+// the order, whether an entry created during the iteration is produced, and
+// (as a consequence) whether an entry deleted and created again during the
+// iteration is produced a second time or at all. RangeMap puts all three on the
+// tape: the keys present at the start come in the canonical order permuted by
+// the tape; a key deleted meanwhile is left out; for a key that was deleted and
+// created again, and for a key that was not there at the start, the tape decides
+// (perm stream, one value per such key: for a re-created key 0 = produce it,
+// for a new key 0 = leave it out, which is what the plain Keys snapshot did).
+
+// MapIter is the state of one map range.
+type MapIter[K comparable] struct {
+	// K is the current key.
+	K     K
+	site  int32
+	keys  []K
+	pos   int
+	start int32 // position in the delete log when the iteration began
+	mptr  uintptr
+	has   func(K) bool
+	now   func() []K
+	seen  map[K]struct{}
+	extra bool // the keys present at the start are exhausted
+}
+
+// RangeMap starts an iteration over m.
+func RangeMap[M ~map[K]V, K comparable, V any](site int32, m M) *MapIter[K] {
+	it := &MapIter[K]{site: site, keys: Keys(site, m)}
+	it.has = func(k K) bool { _, ok := m[k]; return ok }
+	it.now = func() []K {
+		ks := make([]K, 0, len(m))
+		for k := range m {
+			ks = append(ks, k)
+		}
+		sortKeys(ks)
+		return ks
+	}
+	it.mptr = *(*uintptr)(unsafe.Pointer(&m))
+	it.start = deleteLogPos()
+	return it
+}
+
+// Next advances to the next key; it reports false when the iteration is over.
+func (it *MapIter[K]) Next() bool {
+	for !it.extra {
+		if it.pos >= len(it.keys) {
+			it.extra = true
+			break
+		}
+		k := it.keys[it.pos]
+		it.pos++
+		if !it.has(k) {
+			continue
+		}
+		if permSeamOn() && deletedSince(it.mptr, any(k), it.start) {
+			// deleted and created again while the iteration was going on
+			if recreatedDecision()&1 == 1 {
+				continue
+			}
+		}
+		it.K = k
+		return true
+	}
+	if !permSeamOn() {
+		return false
+	}
+	// Keys that were not there when the iteration began.
+	if it.seen == nil {
+		it.seen = make(map[K]struct{}, len(it.keys))
+		for _, k := range it.keys {
+			it.seen[k] = struct{}{}
+		}
+	}
+	for _, k := range it.now() {
+		if _, ok := it.seen[k]; ok {
+			continue
+		}
+		it.seen[k] = struct{}{}
+		if newKeyDecision()&1 == 1 {
+			it.K = k
+			return true
+		}
+	}
+	return false
+}
+
+// The delete log: (map, key) of every delete of instrumented code in this run,
+// in fixed arrays (it is consulted from tasks).
+const deleteLogCap = 4096
+
+var (
+	delMap [deleteLogCap]uintptr
+	delKey [deleteLogCap]any
+	delN   int32
+	delOvf bool
+)
+
+// MapDelete is the replacement of the builtin delete on maps whose ranges are
+// under simulator control.
+func MapDelete[M ~map[K]V, K comparable, V any](m M, k K) {
+	delete(m, k)
+	noteDelete(*(*uintptr)(unsafe.Pointer(&m)), any(k))
+}
+
+//go:norace
+func noteDelete(mp uintptr, k any) {
+	if !permOn {
+		return
+	}
+	if delN >= deleteLogCap {
+		delOvf = true
+		return
+	}
+	delMap[delN] = mp
+	delKey[delN] = k
+	delN++
+}
+
+//go:norace
+func deleteLogPos() int32 { return delN }
+
+//go:norace
+func deletedSince(mp uintptr, k any, from int32) bool {
+	for i := from; i < delN; i++ {
+		if delMap[i] == mp && delKey[i] == k {
+			return true
+		}
+	}
+	return false
+}
+
+//go:norace
+func resetDeleteLog() {
+	for i := int32(0); i < delN; i++ {
+		delKey[i] = nil
+	}
+	delN = 0
+	delOvf = false
+}
+
+//go:norace
+func recreatedDecision() uint32 {
+	st.MapRecreated++
+	v := next(&perms)
+	if v&1 == 1 {
+		st.MapRecreatedSkipped++
+	}
+	return v
+}
+
+//go:norace
+func newKeyDecision() uint32 {
+	st.MapNewKeys++
+	v := next(&perms)
+	if v&1 == 1 {
+		st.MapNewKeysVisited++
+	}
+	return v
+}
